@@ -736,7 +736,7 @@ class FloatMethod(DeserializationMethod):
     def deserialize(self, data: Any) -> Any:
         if isinstance(data, float):
             return data
-        elif isinstance(data, int):
+        elif isinstance(data, int) and not isinstance(data, bool):
             return float(data)
         else:
             raise bad_type(data, float)
